@@ -30,6 +30,9 @@ pub mod alt { pub fn clone(a: &u8) -> u8 { unsafe { super::MCALLS = super::MCALL
 pub static mut NEXT_ID: u8 = 0;
 pub fn next_id() -> u8 { unsafe { let v = NEXT_ID; NEXT_ID = NEXT_ID.wrapping_add(1); v } }
 pub fn id_reset() { unsafe { NEXT_ID = 0; } }
+/// free functions whose names also occur as field names (a field binding must not capture the call)
+pub fn handler() -> u8 { 7 }
+pub fn quiet() -> u8 { 9 }
 /// a conversion method that takes a marker field
 pub fn into_ph(_a: core::marker::PhantomData<u16>) -> u32 { 1000 }
 /// a conversion method generic over its result: it type-checks for every integer target
@@ -306,6 +309,7 @@ impl<T> IsNotCopy for &Probe<T> { fn is_copy(&self) -> bool { false } }
 pub trait Same { fn same(&self, o: &Self) -> bool; }
 macro_rules! same_eq { ($($t:ty),*) => { $(impl Same for $t { fn same(&self, o: &Self) -> bool { self == o } })* } }
 same_eq!(u8, u16, u32, u64, usize, i8, i16, i32, i64, isize, bool, char, (), &'static str, String, crate::m::K, crate::m::W, Option<u8>, [u8; 4], [u8; 2], &'static u8, &'static [u8; 2], crate::m::Adv, Option<bool>, crate::m::Num, *const [u8], (u8,), (u8, u8,));
+impl Same for fn() -> u8 { fn same(&self, o: &Self) -> bool { self() == o() } }
 impl Same for f32 { fn same(&self, o: &Self) -> bool { self.to_bits() == o.to_bits() } }
 impl Same for f64 { fn same(&self, o: &Self) -> bool { self.to_bits() == o.to_bits() } }
 impl<const ID: usize> Same for crate::m::Ctr<ID> { fn same(&self, o: &Self) -> bool { self.0 == o.0 } }
